@@ -21,9 +21,8 @@ Qed.
     repaired model *)
 Theorem refine_bool e ops :
   (forall c, e_kec e c <> []) -> (forall c c', e_kec e c = e_kec e c' -> c = c') ->
-  forallb proved_op ops = true ->
   fst (spec_agree_g wf_thm_b false e spec0 ops (snd (run e cfg_fixed st0 ops)) 0) = None.
-Proof. intros Hne Hinj Hp. apply spec_agree_iff. apply refine_from_empty; assumption. Qed.
+Proof. intros Hne Hinj. apply spec_agree_iff. apply refine_from_empty; assumption. Qed.
 
 (** ** what the specification says a rollback does (by definition) *)
 Lemma spec_rollback_restores e s t x S r :
